@@ -42,11 +42,42 @@ contract("EdgeIDObj.__hash__",
          ensures=["result == hash((min(self.qubit_id0._id.__hash__(), self.qubit_id1._id.__hash__()), "
                   "max(self.qubit_id0._id.__hash__(), self.qubit_id1._id.__hash__())))"])
 
-contract("array_manipulation.unique_in_order",
+def _uio_dispatch(args, kwargs):
+    from pyvc.world import V
+    x = args[0] if args else kwargs.get("iterable")
+    return "array_manipulation.unique_in_order:int" if isinstance(x, V) and x.kind == ("seq", "int") else "array_manipulation.unique_in_order:any"
+
+contract("array_manipulation.unique_in_order", params=dict(iterable=ANY), returns=ANY, verify=False, dispatch=_uio_dispatch)
+contract("array_manipulation.unique_in_order:any",
          params=dict(iterable=SEQ(ANY)), returns=SEQ(ANY), pure=True, props=P,
          ghosts={"pos": SEQ(INT)},
          loops={
              "0:kinds": {"seen": SETOF(ANY), "result": SEQ(ANY)},
+             "0:ghost": {"pos": (SEQ(INT), "seq_empty_int()", "ite(len(result) == len(pos) + 1, seq_concat(pos, [_i]), pos)")},
+             0: [
+                 "same_seq(result, seen)",
+                 "len(pos) == len(result)",
+                 # every visited element has a representative in the result
+                 "forall(_seen, lambda x: exists(result, lambda y: set_same(y, x)))",
+                 # result[k] is the element at position pos[k], which is its first occurrence
+                 "forall_int(0, len(result), lambda k: 0 <= pos[k] and pos[k] < _i and _xs[pos[k]] is result[k] and "
+                 "forall_int(0, pos[k], lambda m: not set_same(_xs[m], result[k])))",
+                 # order preserved
+                 "forall_int(0, len(result), lambda a: forall_int(0, a, lambda b: pos[b] < pos[a]))",
+             ]},
+         ensures=[
+             "len(pos) == len(result)",
+             "forall(iterable, lambda x: exists(result, lambda y: set_same(y, x)))",
+             "forall_int(0, len(result), lambda k: 0 <= pos[k] and pos[k] < len(iterable) and iterable[pos[k]] is result[k] and "
+             "forall_int(0, pos[k], lambda m: not set_same(iterable[m], result[k])))",
+             "forall_int(0, len(result), lambda a: forall_int(0, a, lambda b: pos[b] < pos[a]))",
+         ])
+# the same contract over integer sequences (used by get_qubit_index)
+contract("array_manipulation.unique_in_order:int",
+         params=dict(iterable=SEQ(INT)), returns=SEQ(INT), pure=True, props=P,
+         ghosts={"pos": SEQ(INT)},
+         loops={
+             "0:kinds": {"seen": SETOF(INT), "result": SEQ(INT)},
              "0:ghost": {"pos": (SEQ(INT), "seq_empty_int()", "ite(len(result) == len(pos) + 1, seq_concat(pos, [_i]), pos)")},
              0: [
                  "same_seq(result, seen)",
